@@ -76,6 +76,17 @@ class Box:
     def __repr__(self): return "Box(%r)" % (self.v,)
 
 
+def is_empty(p):
+    if isinstance(p, Box):
+        v = p.v
+        if isinstance(v, (int, float)):
+            return v == 0
+        return not v.t
+    if isinstance(p, Fiber):
+        return all(is_empty(x) for x in p.payloads)
+    return False
+
+
 def zero_like(below):
     """structural zero of a payload that has `below` ranks beneath it (0 = leaf)"""
     if below == 0:
@@ -132,10 +143,12 @@ class Fiber(FiberLike):
         self.below = below
 
     def items(self):
-        return list(zip(self.coords, self.payloads))
+        # fibertree iterates over non-default elements only (iterOccupancy): an element created by '<<' /
+        # getPayloadRef that never received a value, or an explicitly stored zero, is skipped
+        return [(c, p) for c, p in zip(self.coords, self.payloads) if not is_empty(p)]
 
-    def __len__(self): return len(self.coords)
-    def getCoords(self): return list(self.coords)
+    def __len__(self): return len(self.items())
+    def getCoords(self): return [c for c, _ in self.items()]
 
     def _key(self, c):
         return c
